@@ -47,7 +47,7 @@ type skelStep struct {
 }
 
 func ptState(p *secp256k1.Point) string {
-	if _, _, _, valid := p.VerifCoords(); !valid {
+	if !ptIsValid(p) {
 		return "uninit"
 	}
 	return hx(p.UncompressedBytes())
@@ -195,7 +195,7 @@ func driveAPI(c *ctx) {
 		fatal("api: no schedules under VERIF_SKEL_DIR=" + dir)
 	}
 	small := curvePointsWithSmallX(rng, 6)
-	for _, fn := range files {
+	for fi, fn := range files {
 		f, err := os.Open(fn)
 		if err != nil {
 			fatal(err)
@@ -259,15 +259,23 @@ func driveAPI(c *ctx) {
 		}
 		c.nextTrace()
 		c.E("api.Reset", append([]any{"np", np, "ns", ns, "nb", nb, "file", filepath.Base(fn)}, pl.project()...)...)
+		// every third schedule runs BLIND: the pool is not looked at (no accessor of any object is called by the harness) until the
+		// last step, so that state an object builds lazily on first use is still unbuilt when the scheduled calls reach it
+		blind := fi%3 == 1
 		for _, s := range steps {
-			execAPI(c, rng, pl, s, small)
+			if s.Op == "key.Generate" || s.Op == "skey.Generate" { // the generated key is only known by looking at it
+				blind = false
+			}
+		}
+		for si, s := range steps {
+			execAPI(c, rng, pl, s, small, blind && si != len(steps)-1)
 		}
 	}
 	c.sticky = false
 }
 
 // execAPI runs one scheduled call against the real objects.
-func execAPI(c *ctx, rng *rand.Rand, pl *apiPool, s skelStep, small []xy) {
+func execAPI(c *ctx, rng *rand.Rand, pl *apiPool, s skelStep, small []xy, blind bool) {
 	kind := "ok"
 	reply := -1
 	content := ""
@@ -543,6 +551,91 @@ func execAPI(c *ctx, rng *rand.Rand, pl *apiPool, s skelStep, small []xy) {
 		case "env.AppendByte": // grows the slice IN PLACE when it has spare capacity (as append does)
 			pl.buf[s.B] = append(pl.buf[s.B], 1)
 			content = hx(pl.buf[s.B])
+		case "key.PubEqual":
+			if pl.pub == nil {
+				panic("harness: no public key object")
+			}
+			k, err := secec.NewPublicKey(pl.buf[s.B])
+			fail(err)
+			if err == nil {
+				reply = b2i(pl.pub.Equal(k))
+				if pl.priv != nil && pl.priv.Public().(*secec.PublicKey).Equal(k) != pl.pub.Equal(k) { // the crypto.Signer view of the same key
+					reply = -2
+				}
+			}
+		case "key.PrivEqual":
+			if pl.priv == nil {
+				panic("harness: no private key object")
+			}
+			k, err := secec.NewPrivateKey(pl.buf[s.B])
+			fail(err)
+			if err == nil {
+				reply = b2i(pl.priv.Equal(k))
+			}
+		case "spub.Equal":
+			if pl.spub == nil {
+				panic("harness: no Schnorr public key object")
+			}
+			k, err := bitcoin.NewSchnorrPublicKey(pl.buf[s.B])
+			fail(err)
+			if err == nil {
+				reply = b2i(pl.spub.Equal(k))
+			}
+		case "skey.Equal":
+			if pl.spriv == nil {
+				panic("harness: no Schnorr private key object")
+			}
+			k, err := bitcoin.NewSchnorrPrivateKey(pl.buf[s.B])
+			fail(err)
+			if err == nil {
+				reply = b2i(pl.spriv.Equal(k))
+				if pl.spriv.Public().(*bitcoin.SchnorrPublicKey).Equal(k.PublicKey()) != pl.spriv.Equal(k) {
+					reply = -2
+				}
+			}
+		case "key.EqualForeign":
+			foreign := []any{big.NewInt(7), "not a key", struct{}{}, []byte{1}}[s.C%4]
+			switch s.C {
+			case 0:
+				if pl.pub == nil {
+					panic("harness: no public key object")
+				}
+				reply = b2i(pl.pub.Equal(foreign) || (pl.spub != nil && pl.pub.Equal(pl.spub)))
+			case 1:
+				if pl.priv == nil {
+					panic("harness: no private key object")
+				}
+				reply = b2i(pl.priv.Equal(foreign) || (pl.spriv != nil && pl.priv.Equal(pl.spriv)))
+			case 2:
+				if pl.spub == nil {
+					panic("harness: no Schnorr public key object")
+				}
+				reply = b2i(pl.spub.Equal(foreign) || (pl.pub != nil && pl.spub.Equal(pl.pub)))
+			default:
+				if pl.spriv == nil {
+					panic("harness: no Schnorr private key object")
+				}
+				reply = b2i(pl.spriv.Equal(foreign) || (pl.priv != nil && pl.spriv.Equal(pl.priv)))
+			}
+		case "btc.PreHash":
+			name := []string{"verif/domain", "", "verif/\xff\xfedomain"}[s.C%3]
+			out, err := bitcoin.PreHashSchnorrMessage(name, pl.buf[s.M])
+			fail(err)
+			if err == nil {
+				pl.buf[s.B] = out
+			}
+		case "key.Generate":
+			k, err := secec.GenerateKey()
+			fail(err)
+			if err == nil {
+				pl.priv, pl.pub = k, k.PublicKey()
+			}
+		case "skey.Generate":
+			k, err := bitcoin.GenerateSchnorrKey()
+			fail(err)
+			if err == nil {
+				pl.spriv, pl.spub = k, k.PublicKey()
+			}
 		case "skey.Sign":
 			if pl.spriv == nil {
 				panic("harness: no Schnorr private key object")
@@ -581,6 +674,10 @@ func execAPI(c *ctx, rng *rand.Rand, pl *apiPool, s skelStep, small []xy) {
 		kind = "panic"
 	}
 	kv := []any{"op", s.Op, "v", s.V, "p", s.P, "q", s.Q, "s", s.S, "t", s.T, "b", s.B, "c", s.C, "m", s.M, "cls", s.Cls, "content", content, "kind", kind, "reply", reply, "model_kind", s.Kind}
+	if blind {
+		c.E("api.Step", append(kv, "blind", true)...)
+		return
+	}
 	c.E("api.Step", append(kv, pl.project()...)...)
 }
 
